@@ -211,8 +211,11 @@ impl ServerCertVerifier for CustomCertVerifier {
                 Ok(ServerCertVerified::assertion())
             }
 
-            Err(rustls::Error::InvalidCertificate(rustls::CertificateError::NotValidForName))
-                if self.accept_invalid_hostnames =>
+            // rustls reports a name mismatch as `NotValidForNameContext { .. }` since it attaches the
+            // expected and presented names; `NotValidForName` is the same verdict without the details
+            Err(rustls::Error::InvalidCertificate(
+                rustls::CertificateError::NotValidForName | rustls::CertificateError::NotValidForNameContext { .. },
+            )) if self.accept_invalid_hostnames =>
             {
                 Ok(ServerCertVerified::assertion())
             }
